@@ -349,7 +349,7 @@ def _forests(n, alpha):
 def _ros_small():
     sect = ["ip", "a", "user"]
     leaf = ["r0", "add x=1"]
-    # one or two top-level sections, each: leaves then at most one sub-section (which has leaves / one more level)
+    # one or two top-level sections, each: leaves and at most one sub-section (which has leaves / one more level)
     def section_bodies(depth):
         for nl in (0, 1, 2):
             for ls in itertools.permutations(leaf, nl):
@@ -359,7 +359,10 @@ def _ros_small():
                 if depth < 3:
                     for w in sect:
                         for b in section_bodies(depth + 1):
-                            yield base + [[w, b]]
+                            # the sub-section after, before and between the section's own rows (a device export lists
+                            # `/user group` before the rows of `/user`)
+                            for pos in range(len(base), -1, -1):
+                                yield base[:pos] + [[w, b]] + base[pos:]
     bodies = list(section_bodies(1))
     for b in bodies:
         yield [["ip", b]]
@@ -386,7 +389,7 @@ def shards(tier, seed):
     reps_of_class = ["huawei", "optixtrans", "cisco", "nexus", "iosxr", "juniper", "nokia"]
     for v in VENDORS:
         if CLASS[v] == "ros":
-            out.append(dict(kind="exh-ros", vendor=v, limit=None if tier == "thorough" else 400))
+            out.append(dict(kind="exh-ros", vendor=v, limit=None if tier == "thorough" else 1200))
         elif tier == "thorough":
             for first in range(6):
                 out.append(dict(kind="exh", vendor=v, minnodes=0, maxnodes=4, alpha=6, first=first))
@@ -552,7 +555,7 @@ def _ros_ok(tree, path=()):
                     or not _ros_ok(c, path + (k,)):
                 return False
         else:
-            if not path or seen_section or k.startswith("/") or not _row_ok("ros", k):
+            if not path or k.startswith("/") or not _row_ok("ros", k):
                 return False
     return True
 
